@@ -279,6 +279,11 @@ func importData(peers []*Peer, table *Table, rows ResultSet, columns []string, l
 		}
 		data := peer.data.Load()
 		data.Set(table.name, store)
+		if table.name == TableStatus && len(store.data) > 0 {
+			// what InitAllTables remembers of the core; last_state_change_order falls back to program_start
+			peer.programStart.Store(store.data[0].GetInt64ByName("program_start"))
+			peer.corePid.Store(store.data[0].GetInt64ByName("nagios_pid"))
+		}
 	}
 
 	return peers, nil
